@@ -13,6 +13,8 @@ HARNESSES = [
          files=[("pkg/dhcp/zz_verif_c19_dhcp_test.go", "harness/C19/zz_verif_c19_dhcp_test.go")]),
     dict(name="local", pkg="./plugins/dhcp4/local/", test="TestVerifC19",
          files=[("plugins/dhcp4/local/zz_verif_c19_local_test.go", "harness/C19/zz_verif_c19_local_test.go")]),
+    dict(name="local6", pkg="./plugins/dhcp6/local/", test="TestVerifC19",
+         files=[("plugins/dhcp6/local/zz_verif_c19_local6_test.go", "harness/C19/zz_verif_c19_local6_test.go")]),
 ]
 # every recorded defect is fixed in /repo; a regression to an old behaviour is a plain VIOLATION (no defect variant is consulted)
 VARIANTS = ["repaired"]
@@ -55,6 +57,8 @@ def route(case):
         return "dhcp"
     if op in ("pool", "resolved"):
         return "local"
+    if op == "resp6":
+        return "local6"
     return "relay"
 
 
@@ -707,6 +711,29 @@ def gen_carry(rng, n):
     return cases
 
 
+def gen_resp6(rng, n):
+    """plugins/dhcp6/local buildResponse: resolved address / prefix / DNS / raw options -> ADVERTISE / REPLY"""
+    cases = []
+    prefs = [0, 1, 2, 3, 4, 5, 6, 7, 9, 10, 3600, 86400, 604800, (1 << 30) - 1, 1 << 30, (1 << 30) + 1, 1 << 31, M32 - 6,
+             M32 - 5, M32 - 4, M32 - 3, M32 - 2, M32 - 1]
+    for k in range(n):
+        pref = rng.choice(prefs + [rng.randrange(M32)])
+        na = "nil" if rng.random() < 0.25 else "%d,%s,%d,%d" % (u32(rng), ip6tok2(rng, 0.1).replace("nil", hx(ip6b(rng))), pref, u32(rng))
+        pd = "nil" if rng.random() < 0.35 else "%d,%s,%d,%d,%d" % (u32(rng), ip6tok2(rng, 0.1).replace("nil", hx(ip6b(rng))),
+                                                                  rng.choice([0, 48, 56, 60, 64, 127, 128, 129, 200]),
+                                                                  rng.choice(prefs), u32(rng))
+        nd = rng.choice([0, 0, 1, 2, 3])
+        dns = [ip6tok2(rng, 0.12) for _ in range(nd)]
+        ex = []
+        for _ in range(rng.choice([0, 0, 1, 2])):
+            ex.append("%d,%s" % (rng.choice([24, 31, 56, 82, 17, 65535, 14, 7]), hx(rb(rng, rng.choice([0, 1, 4, 16, 40])))))
+        if rng.random() < 0.06:   # raw option colliding with a built-in code (config validation denies these)
+            ex.append("%d,%s" % (rng.choice([1, 2, 3, 5, 13, 23, 25, 26, 0]), hx(rb(rng, rng.choice([0, 2, 12, 16, 40])))))
+        cases.append(" ".join(["resp6", str(rng.choice([2, 7])), hx(rb(rng, 3)), hx(rb(rng, rng.choice([14, 10, 0, 1]))),
+                               hx(rb(rng, rng.choice([14, 10, 18]))), na, pd, str(nd)] + dns + [str(len(ex))] + ex))
+    return cases
+
+
 def gen_pipeline4(rng, n):
     """the relay / proxy pipelines of plugins/dhcp4/{relay,proxy}: several calls on one buffer"""
     cases = []
@@ -758,6 +785,7 @@ def gen_cases(rng, tier, budget):
     cases += gen_reply(rng, 900 * k)
     cases += gen_v6(rng, 1500 * k)
     cases += gen_pipeline4(rng, 360 * k)
+    cases += gen_resp6(rng, 400 * k)
     return cases
 
 
